@@ -16,6 +16,10 @@ CLAIMED = {
    text="Theorems C11_truncate_sound (every N <= 254: the returned witness equals the canonical value mod 2^N for every assignment of high part, inverse, is_top, guard and all range accumulators; built from C11_canonical_guard and C11_split_sound, incl. the is-zero gadget and the two extreme-width numeric side conditions) and C11_decomposition_sound (N <= 254: satisfiable only below 2^N, bits are the canonical ones) with C11_decomposition_complete_any; the full decomposition statement is refuted for N=256 by theorem C11_decomposition_alias_refuted (known finding F4, reproduced on the real code every run). Layouts are compared with the real Composer for every N on every run; honest, alias (v+r), forced-output and flipped-bit assignments are re-derived on the real layout and decided by the proved row evaluator.",
    technique="Coq proof (canonical-split arithmetic over Z, induction over bits) + exhaustive-N differential correspondence + evaluator-decided adversarial templates on real layouts",
    design="5/C11, 6/F4"),
+ "C10": dict(
+   text="Theorem C10_logic_sound: for every pair count 0..127, both operations and every assignment of accumulators, product wires and truncation helpers, satisfaction of the emitted rows forces the returned witness to hold (a mod 2^(2P)) op (b mod 2^(2P)); built from the 16-case table of the fifth logic identity (C10_logic_table, a finite vm_compute sweep lifted by forallb_forall), an induction along the quad rows (C10_logic_rows_sound, digit-step lemmas for land/lxor) and the canonical truncation split of C11. Every pair count x op is compared with the real Composer on every run (layout, witness values, returned value), the logic widget's three coded forms with the model formula, and forged accumulator / product / output / a+r assignments are decided on the real layout by the proved evaluator.",
+   technique="Coq proof (finite table + induction over quads + truncation split) + exhaustive differential correspondence + L1 widget tie + evaluator-decided templates",
+   design="5/C10"),
  "C08": dict(
    text="Machine-checked theorems (Props/C08.v) state, for every selector tuple, wiring and assignment, the exact relation each arithmetic/equality/boolean/selection component enforces, uniqueness of returned witnesses, completeness of honest values and locality of arithmetic blocks inside any satisfied system; the Gallina composer model they are about is compared on every run with the real Composer (gates, public-input rows, witness values) on generated programs, and the real snapshots are probed with perturbed assignments evaluated by the proved-sound row evaluator.",
    technique="Coq proof over a Gallina model of the composer + differential correspondence (L3 snapshot tie) + exactness probe on real layouts",
